@@ -82,6 +82,9 @@ type R<T> = std::result::Result<T, String>;
 
 struct Cx {
     env: Vec<(String, Ty)>,
+    /// (index in env, rust name, gallina name): binders that shadow an outer name in a function whose
+    /// continuations are inlined get a fresh gallina name, so that the inlined text keeps meaning the outer one
+    renames: Vec<(usize, String, String)>,
     fresh: usize,
     calls: HashMap<String, String>,
     call_ty: HashMap<String, Ty>,
@@ -228,6 +231,15 @@ impl Cx {
         self.fresh += 1;
         format!("{}_{}", base, self.fresh)
     }
+    fn coqname(&self, v: &str) -> String {
+        for (i, r, c) in self.renames.iter().rev() {
+            if r == v && *i < self.env.len() && self.env[*i].0 == v {
+                // the innermost live binding of v must be this one
+                if self.env.iter().rposition(|(n, _)| n == v) == Some(*i) { return c.clone(); }
+            }
+        }
+        ident(v)
+    }
     fn lookup(&self, v: &str) -> Option<Ty> {
         self.env.iter().rev().find(|(n, _)| n == v).map(|(_, t)| t.clone())
     }
@@ -290,7 +302,7 @@ impl Cx {
             },
             Expr::Path(p) => {
                 let s = path_str(&p.path);
-                if self.lookup(&s).is_some() { ident(&s) }
+                if self.lookup(&s).is_some() { self.coqname(&s) }
                 else if let Some(c) = unit_ctor(&s) { c.to_string() }
                 else if s == "self" { "self".into() }
                 else { return Err(format!("unknown name `{}`", s)); }
@@ -475,7 +487,15 @@ impl Cx {
                 let n = i.ident.to_string();
                 if let Some(c) = unit_ctor(&n) { (c.to_string(), false) }
                 else {
-                    if self.inline_k && self.lookup(&n).is_some() && !self.rebind_ok { return Err(format!("`{}` is bound twice in a function with mutable variables", n)); }
+                    let len = self.env.len();
+                    self.renames.retain(|r| r.0 < len);
+                    if self.inline_k && self.lookup(&n).is_some() && !self.rebind_ok {
+                        if i.mutability.is_some() || self.muts.contains(&n) { return Err(format!("`{}` shadows or is a mutable variable bound twice", n)); }
+                        let c = self.fresh(&ident(&n));
+                        self.renames.push((len, n.clone(), c.clone()));
+                        self.env.push((n.clone(), hint.clone()));
+                        return Ok((c, true));
+                    }
                     if i.mutability.is_some() { self.muts.push(n.clone()); }
                     self.env.push((n.clone(), hint.clone())); (ident(&n), true)
                 }
@@ -1049,7 +1069,7 @@ fn find_fn<'a>(file: &'a File, t: &Target) -> Option<(&'a Signature, &'a Block, 
 fn translate(t: &Target, sig: &Signature, block: &Block, ret_tys: &HashMap<String, Ty>) -> R<(String, Ty)> {
     let mut cx = Cx { env: vec![], fresh: 0, calls: t.calls.iter().map(|(a, b)| (a.to_string(), b.to_string())).collect(),
                       call_ty: t.calls.iter().filter_map(|(a, b)| ret_tys.get(*b).map(|ty| (a.to_string(), ty.clone()))).collect(),
-                      tuple_hint: vec![], ret_ty: String::new(), inline_k: false, muts: vec![], rebind_ok: false, writers: vec![], retk_stack: vec![] };
+                      renames: vec![], tuple_hint: vec![], ret_ty: String::new(), inline_k: false, muts: vec![], rebind_ok: false, writers: vec![], retk_stack: vec![] };
     cx.inline_k = quote::ToTokens::to_token_stream(block).to_string().contains("let mut ");
     let self_coq = match t.impl_self { Some("Side") => ("side", Ty::Side), Some("UserBounds") => ("ubound", Ty::UB), Some("UserBoundsList") => ("ublist", Ty::Other), Some("FastOpt") => ("gfopt", Ty::Other), Some("StreamOpt") => ("gsopt", Ty::Other), _ => ("UNKNOWN", Ty::Other) };
     let mut rty = Ty::Other;
